@@ -62,6 +62,9 @@ def run(ctx):
     r4 = ctx.rule("C17.R4", "DEP: verify checks every (algorithm, digest) pair, exits only by raising PatchSetVerificationError or exhausting the loop; utils.digest hashes json.dumps(obj, sort_keys=True)", "DEP", floor=3)
     r5 = ctx.rule("C17.R5", "ORDER/EFFECT: in apply, verify(spec) dominates the patch application, the patch is applied not in place, the result is wrapped in Workspace", "ORDER", floor=3)
     r6 = ctx.rule("C17.R6", "SEMANTIC: PatchSet / Patch / utils.digest INTERPRETED (object model; jsonpatch.JsonPatch, json.dumps and hashlib modelled): a set with an EMPTY patch, a patch NAMED 'name' and an ordinary one is built; every patch is returned by exactly its name, its value tuple and its value list, unknown keys raise InvalidPatchLookup; duplicate names, duplicate values and a wrong value count are refused with InvalidPatchSet; verify accepts the recorded workspace and any key-reordering of it (also inside lists), rejects a changed one under either algorithm, also when the SAME object was verified before and then changed; apply verifies first, returns Workspace(patched copy) and leaves its input untouched", "SEMANTIC", floor=8)
+    r7 = ctx.rule("C17.R7", "MEMO-STATE (effect rule): no memoised function (functools.lru_cache / cache) on the validation path -- schema/validator.py, schema/loader.py, schema/__init__.py, patchset.py, utils.py, workspace.py -- reads, itself or through the package functions it calls, module state that is switched at run time (the schema directory and schema store that `pyhf.schema(path)` swaps, the current backend): what was validated under one schema directory must not decide what is accepted under another", "EFFECT", floor=1)
+    from .. import memo
+    ctx.extra["memoised_functions_on_the_validation_path"] = memo.check(ctx, r7, ["src/pyhf/schema/validator.py", "src/pyhf/schema/loader.py", "src/pyhf/schema/__init__.py", "src/pyhf/schema/variables.py", "src/pyhf/patchset.py", "src/pyhf/utils.py", "src/pyhf/workspace.py"])
     _semantic(ctx, r6, repo)
     if not lookups:
         for r_ in (r1, r2, r3, r4, r5):
